@@ -5,7 +5,7 @@ from typing import Any, ForwardRef, TypeVar
 
 from ..common import TypeHint, VarTuple
 from ..feature_requirement import HAS_PARAM_SPEC, HAS_TV_DEFAULT, HAS_TV_TUPLE
-from .basic_utils import create_union, eval_forward_ref, is_user_defined_generic, strip_alias
+from .basic_utils import create_union, eval_forward_ref, get_type_vars, is_user_defined_generic, strip_alias
 from .constants import BUILTIN_ORIGIN_TO_TYPEVARS
 
 
@@ -40,7 +40,7 @@ class ImplicitParamsGetter:
 
     def get_implicit_params(self, origin) -> VarTuple[TypeHint]:
         if is_user_defined_generic(origin):
-            type_vars = origin.__parameters__
+            type_vars = get_type_vars(origin)
         else:
             type_vars = BUILTIN_ORIGIN_TO_TYPEVARS.get(origin, ())
 
